@@ -481,3 +481,119 @@ def bounded_check(E, reg, qualname, contract, tries=2000, seed=0):
     finally:
         _STATS = None
     return stats, found
+
+
+def _declared_name(E, contract, exc_name):
+    if contract.raises_any:
+        return True
+    for ex in contract.exsures:
+        try:
+            cls = E.exc_class_by_name(ex[0])
+        except Exception:      # noqa
+            continue
+        if exc_name == cls.__name__ or any(k.__name__ == exc_name for k in cls.__subclasses__()):
+            return True
+    return False
+
+
+def _canon(x, depth=0, seen=None):
+    """structural, identity-free rendering of a value for comparing two executions"""
+    seen = seen if seen is not None else set()
+    if depth > 6:
+        return "..."
+    if isinstance(x, (int, float, str, bytes, bool, type(None))):
+        return repr(x)
+    if id(x) in seen:
+        return "<cycle>"
+    seen = seen | {id(x)}
+    if isinstance(x, (list, tuple)):
+        return "[" + ",".join(_canon(i, depth + 1, seen) for i in x) + "]"
+    if isinstance(x, (set, frozenset)):
+        return "{" + ",".join(sorted(_canon(i, depth + 1, seen) for i in x)) + "}"
+    if isinstance(x, dict):
+        return "{" + ",".join(sorted(_canon(k, depth + 1, seen) + ":" + _canon(v, depth + 1, seen) for k, v in x.items())) + "}"
+    if isinstance(x, BaseException):
+        return f"<exc {type(x).__name__}>"
+    d = getattr(x, "__dict__", None)
+    if d is not None:
+        return type(x).__name__ + "(" + ",".join(f"{k}={_canon(v, depth + 1, seen)}" for k, v in sorted(d.items()) if not k.startswith("__")) + ")"
+    return type(x).__name__
+
+
+def differential(E, reg, qualname, contract, seed=0, tries=200):
+    """run the baseline version (source kept in contracts/baseline/_sources.json) and the current version of a natively
+    executable function on the same generated inputs -> {"runs": n, "difference": None | {...}}; None when there is no baseline
+    or the function is unchanged"""
+    import json
+    import os
+    here = os.path.dirname(os.path.dirname(os.path.abspath(__file__)))
+    p = os.path.join(here, "contracts", "baseline", "_sources.json")
+    if not os.path.exists(p):
+        return None
+    base = json.load(open(p)).get(qualname)
+    if not base:
+        return None
+    obj, owner, mod = locate.resolve(qualname)
+    fn, fkind, _ = locate.unwrap(obj)
+    fdef, _ = locate.find_def(fn)
+    if locate.ast_hash(fdef) == base.get("hash"):
+        return None
+    ns = dict(fn.__globals__)
+    exec(compile(ast.parse(base["source"]), "<baseline of %s>" % qualname, "exec"), ns)
+    old_fn = locate.unwrap(ns[fn.__name__])[0]
+    from .verify import param_types
+    ptys = param_types(E, fn, fdef, contract, owner)
+    rng = random.Random(seed * 104729 + 17)
+    reqs = [compile(ast.parse(r, mode="eval"), "<requires>", "eval") for r in contract.requires if not _uses_unsupported(r)]
+    patches = _stub_trusted(E, reg, rng)
+    import logging
+    import io
+    import contextlib
+    logging.disable(logging.CRITICAL)
+    runs, diff = 0, None
+    try:
+        with contextlib.redirect_stderr(io.StringIO()), contextlib.redirect_stdout(io.StringIO()):
+            for _ in range(tries):
+                gen = Gen(E, rng)
+                try:
+                    args = {}
+                    for n, t in ptys.items():
+                        args[n] = owner if t == "@class" else gen.value(E.U.parse(t), n)
+                except Skip:
+                    break
+                env = dict(fn.__globals__)
+                env.update(_spec_env(E, gen, reg))
+                env.update(args)
+                try:
+                    if not all(eval(r, env) for r in reqs):
+                        continue
+                except Exception:      # noqa
+                    continue
+                if not _deepcopy_ok(args):
+                    continue
+                outs = []
+                for f in (old_fn, fn):
+                    a = copy.deepcopy(args)
+                    try:
+                        r = f(**a)
+                        if hasattr(r, "__next__"):
+                            r = list(r)
+                        outs.append(("ret", _canon(r), _canon(a)))
+                    except Exception as e:      # noqa
+                        outs.append(("exc", type(e).__name__, _canon(a)))
+                # a run is informative only when the baseline version accepted the input (returned, or raised an exception the contract
+                # declares): generated stand-ins on which both versions crash the same way say nothing
+                if outs[0][0] == "exc" and not _declared_name(E, contract, outs[0][1]):
+                    if outs[0] != outs[1] and diff is None and outs[1][0] == "ret":
+                        pass
+                    continue
+                runs += 1
+                if outs[0] != outs[1] and diff is None:
+                    diff = {"inputs": {k: _short(v) for k, v in args.items()}, "baseline": outs[0][:2], "current": outs[1][:2],
+                            "summary": f"on {_short(args)} the baseline gives {outs[0][0]} {outs[0][1][:120]}, the current code {outs[1][0]} {outs[1][1][:120]}"}
+                    break
+    finally:
+        logging.disable(logging.NOTSET)
+        for owner_obj, name, orig in patches:
+            setattr(owner_obj, name, orig)
+    return {"runs": runs, "difference": diff}
